@@ -1456,8 +1456,9 @@ def gen_stream(rng, nvars, nops):
         out.insert(len(out) // 2 + rng.below(len(out) // 2), "dropdown")
     out.append("tables")
     # drain completely: everything pumped, both mirrors poll beyond the end
-    out += ["pump1 100000", "poll1 99999999", "pump2 100000", "poll2 99999999", "tables"]
-    return out
+    out += ["pump1 100000", "poll1 99999999", "pump2 100000", "poll2 99999999", "tables", "mirroruniq"]
+    # the relay is put together in one of the three ways the interface offers
+    return ["relaymode %d" % rng.below(3)] + out
 
 
 def judge_stream(body, a):
@@ -1481,9 +1482,11 @@ def judge_stream(body, a):
     ans = {l.split()[0]: l.split() for l in a}
     for line in body:
         w = line.split()
-        if w[0] in ("poll1", "poll2", "tables"):
+        if w[0] in ("poll1", "poll2", "tables", "mirroruniq"):
             r = ans.get("q%d" % qi)
             qi += 1
+            if w[0] == "mirroruniq" and r and r[2] != "0":
+                bad.append(("mirror-unique-table", "a mirror does not find the nodes it received in its own unique table (asking for them again gives other handles or appends nodes: code %s)" % r[2]))
             if w[0].startswith("poll") and r:
                 found, size = r[2] == "1", int(r[3])
                 if found != (int(w[1]) < size):
@@ -1564,7 +1567,7 @@ def check_C14(ck, res, replay):
     # the CLI half of the property: --export never overwrites an existing file, --import reproduces the answers
     binary = build_cli(ck, res)
     if binary and not replay:
-        import subprocess, hashlib as hl
+        import subprocess, shutil, hashlib as hl
         rng = gen.Rng(res.seed ^ 0xE14)
         tmpd = os.path.join(ck.WORK, "export.%d" % os.getpid())
         os.makedirs(tmpd, exist_ok=True)
@@ -1580,6 +1583,20 @@ def check_C14(ck, res, replay):
                 res.violations.append({"key": "export:failed", "what": "--export to a fresh path failed (exit %s)" % r1.returncode, "text": t1})
                 continue
             h1 = hl.sha1(open(ex, "rb").read()).hexdigest()
+            # earlier exports that live beside the new one (same stem, other extensions) are existing export files too
+            ex2 = ex[:-5] + ".second.json"
+            sib = [ex[:-5] + ".tmp", ex + ".tmp", ex + "~", ex[:-5] + ".bak", ex2[:-5] + ".tmp", ex2 + ".tmp", ex2[:-5] + ".bak"]
+            for sp in sib:
+                shutil.copy(ex, sp)
+            subprocess.run([binary, "--lib", "naive", "--export", ex2, "--grd", f2], capture_output=True, text=True, env=envp, timeout=60)
+            subprocess.run([binary, "--lib", "naive", "--export", ex, "--grd", f2], capture_output=True, text=True, env=envp, timeout=60)
+            for sp in sib:
+                if not os.path.exists(sp) or hl.sha1(open(sp, "rb").read()).hexdigest() != h1:
+                    res.violations.append({"key": "export:overwrite:sibling", "what": "exporting to %s changed or removed the existing file %s beside it" % (os.path.basename(ex), os.path.basename(sp)), "text": t1, "second": t2})
+                    break
+            for sp in sib + [ex2]:
+                if os.path.exists(sp):
+                    os.remove(sp)
             r2 = subprocess.run([binary, "--lib", "naive", "--export", ex, "--grd", f2], capture_output=True, text=True, env=envp, timeout=60)
             h2 = hl.sha1(open(ex, "rb").read()).hexdigest()
             if h1 != h2:
@@ -2403,6 +2420,12 @@ def check_C16(ck, res, replay):
                         if rng.chance(1, 6):
                             run.do(cl, ("solve", name, st_))       # already solved: conflict
                     run.do(cl, ("get", name))
+                if rng.chance(1, 3):
+                    # the account is renamed (a temporary user claims a name): every problem must follow its owner
+                    user = user + "r%d" % rng.below(10)
+                    run.do(cl, ("update", user, "pw2"))
+                    for pi in range(nprob):
+                        run.do(cl, ("get", "h%dp%d" % (hno, pi)))
                 run.do(cl, ("list",))
                 nontriv.add(hno)
             run.dump()
@@ -2427,7 +2450,14 @@ def check_C16(ck, res, replay):
                 res.broken.append(("correspondence", "server history %s: implementation and model differ" % cid,
                                    json.dumps({"events": run.model_lines, "first_differences": d, "lengths": [len(run.obs), len(m)]})[:3000]))
         # judge the real server's final documents against the definitions
+        owned = {}
         for k, req, st, body in run.raw:
+            if req[0] == "add" and st == 200:
+                owned.setdefault(k, set()).add(req[1])
+            if req[0] == "delete" and st == 200:
+                owned.get(k, set()).discard(req[1])
+            if req[0] == "get" and st == 404 and req[1] in owned.get(k, set()):
+                res.violations.append({"key": "server:problem-lost", "what": "GET of a problem the client added (and did not delete) answers 404: the stored answers are never returned", "events": run.model_lines[-30:], "problem": req[1]})
             if req[0] == "get" and st == 200:
                 j = json.loads(body)
                 text = texts[j["name"]]
@@ -2704,6 +2734,34 @@ def check_C17(ck, res, replay):
                                        "events": run.model_lines[-14:], "observed": body[:200]})
             run.do(b2, ("delete", "mine"))
             run.dump()
+            # running tasks are part of what a user sees: while ANOTHER user's task for a problem of the same name runs
+            # (a slow one: complete models of an odd attack cycle), this user's view of the own problem shows nothing running
+            cA, cB = sh.Client(), sh.Client()
+            cA.register("viewA", "pwa"); cA.login("viewA", "pwa"); cB.register("viewB", "pwb"); cB.login("viewB", "pwb")
+            slow_names = ["q%d" % i for i in range(11)]
+            slow_text = "".join("s(%s)." % x for x in slow_names) + "".join("ac(%s,neg(%s))." % (slow_names[i], slow_names[(i + 1) % 11]) for i in range(11))
+            seen_running = 0
+            for rnd in range(2 if quick else 6):
+                pn = "busy%d" % rnd
+                cA.add(pn, "s(ownA).ac(ownA,c(v)).", "Naive"); cB.add(pn, slow_text, "Naive")
+                cA.wait_idle(pn); cB.wait_idle(pn, limit=60)
+                cB.solve(pn, "Complete")
+                stB, bodyB = cB.get(pn)
+                stA, bodyA = cA.get(pn)
+                stL, bodyL = cA.list()
+                nreq += 8
+                try:
+                    if json.loads(bodyB)["running_tasks"]:
+                        seen_running += 1
+                    mineA = json.loads(bodyA)["running_tasks"]
+                    listA = [t for pr in json.loads(bodyL) for t in pr["running_tasks"]]
+                except (ValueError, KeyError, TypeError):
+                    mineA, listA = None, None
+                if mineA or listA:
+                    res.violations.append({"key": "isolation:foreign-running-task", "what": "a user's view of the own problem %r lists a task that belongs to another user's problem of the same name: %s / %s" % (pn, mineA, listA),
+                                           "events": ["A and B each add a problem named %s" % pn, "B solves Complete (slow)", "A gets / lists while B's task runs"]})
+                cB.wait_idle(pn, limit=120)
+            res.extra["foreign_task_windows_observed"] = seen_running
             cid = cf.add("SERVER", run.model_lines, meta={})
             runs.append((cid, run))
         finally:
